@@ -25,6 +25,7 @@ import (
 	"fmt"
 	"math/rand"
 	"net/http"
+	"net/http/httptest"
 	"sort"
 	"strconv"
 	"strings"
@@ -33,6 +34,7 @@ import (
 	"testing"
 	"time"
 
+	sessionsapi "github.com/oauth2-proxy/oauth2-proxy/v7/pkg/apis/sessions"
 	"github.com/oauth2-proxy/oauth2-proxy/v7/pkg/clock"
 )
 
@@ -349,6 +351,8 @@ type c02Cell struct {
 	longLived bool
 
 	histories []*c02History // versions of one store entry / one session's cookies over several saves
+	payloads  []c02Payload        // everything encrypted under the cookie secret that the proxy issued (joined values)
+	tokBySub  map[string]c02Tokens // tokens the IdP issued, by subject (concurrent logins)
 	storeObs  map[string][]string // store key -> every distinct raw value observed under it, in order
 
 	seenMu      sync.Mutex
@@ -430,6 +434,9 @@ func (c *c02Cell) loginAt(in *c02Inst, label string, who vfIdentity, at time.Tim
 		c.run.T.Fatalf("C02 rig: login %s produced no session cookie of the documented value|timestamp|signature form: %v", label, cr.Parts)
 	}
 	c.collectCookies(b)
+	if in.Store == "cookie" {
+		c.notePayload("session", label, cr.Full, who.Email)
+	}
 	if in.Store == "redis" {
 		for _, k := range c.w.Redis().Keys() {
 			if !before[k] {
@@ -516,6 +523,7 @@ func (c *c02Cell) startCSRF(label string, who vfIdentity, at time.Time) *c02Cred
 		c.run.T.Fatalf("C02 rig: CSRF cookie name %q does not fit --cookie-csrf-per-request=%v", cr.Parts[0].Name, c.g.CSRFPerReq)
 	}
 	c.collectCookies(b)
+	c.notePayload("csrf", label, cr.Full, "")
 	return cr
 }
 
@@ -708,6 +716,14 @@ func (c *c02Cell) work() {
 			if c.longLived { // save histories run the proxy's clock hours ahead: the tokens must outlive that
 				resp["expires_in"] = 86400
 			}
+			if cl := vfJWTClaims(s("id_token")); cl != nil {
+				if sub, _ := cl["sub"].(string); sub != "" {
+					if c.tokBySub == nil {
+						c.tokBySub = map[string]c02Tokens{}
+					}
+					c.tokBySub[sub] = c02Tokens{Access: s("access_token"), ID: s("id_token"), Refresh: s("refresh_token")}
+				}
+			}
 			c.lastTok = c02Tokens{Access: s("access_token"), ID: s("id_token"), Refresh: s("refresh_token")}
 			c.tokMu.Unlock()
 		}
@@ -893,6 +909,9 @@ func (c *c02Cell) work() {
 		if testing.Verbose() {
 			fmt.Printf("NOTE c02 %s/%s/%s: %d jobs in %v (cookie %d chars, %d parts)\n", g.Store, g.Form.Name, size.Name, len(jobs), time.Since(tJobs).Round(time.Millisecond), len(A1.Full), len(A1.Parts))
 		}
+		if g.Store == "cookie" {
+			c.resave(P, A1)
+		}
 		// the issued sessions must have survived the bombardment unchanged (else later variants were judged against nothing)
 		for _, cr := range []*c02Cred{A1, A2, B} {
 			out := c02Probe(c.w, cr.Owner, cr.Parts, false)
@@ -900,6 +919,11 @@ func (c *c02Cell) work() {
 				run.T.Fatalf("C02 rig: session %s no longer honoured after the variants were presented: %+v", cr.Label, out)
 			}
 		}
+	}
+	tCo := time.Now()
+	c.concurrentIssue(P)
+	if testing.Verbose() {
+		fmt.Printf("NOTE c02 %s/%s: concurrent issuing in %v\n", g.Store, g.Form.Name, time.Since(tCo).Round(time.Millisecond))
 	}
 	c.saveHistory(R, 3)
 	tOp := time.Now()
@@ -1085,6 +1109,29 @@ func (c *c02Cell) csrfTransplants(csrf1, csrf2, s *c02Cred) []c02Variant {
 	return out
 }
 
+// c02Payload: one complete signed value (split parts joined) of a cookie encrypted under the cookie secret.
+type c02Payload struct {
+	Kind, Label, Full, MustContain string
+}
+
+func (c *c02Cell) notePayload(kind, label, full, mustContain string) {
+	c.seenMu.Lock()
+	c.payloads = append(c.payloads, c02Payload{kind, label, full, mustContain})
+	c.seenMu.Unlock()
+}
+
+// sessionCookiesOf extracts the (non-empty) session cookies of instance in from Set-Cookie lines, in part order.
+func sessionCookiesOf(in *c02Inst, lines []string) []c02CK {
+	var out []c02CK
+	for _, line := range lines {
+		if ck, err := http.ParseSetCookie(line); err == nil && in.isSessionCookie(ck.Name) && ck.Value != "" {
+			out = append(out, c02CK{ck.Name, ck.Value})
+		}
+	}
+	sort.SliceStable(out, func(i, j int) bool { return len(out[i].Name) < len(out[j].Name) || (len(out[i].Name) == len(out[j].Name) && out[i].Name < out[j].Name) })
+	return out
+}
+
 func (c *c02Cell) observeStore(key, val string) {
 	c.seenMu.Lock()
 	defer c.seenMu.Unlock()
@@ -1097,6 +1144,137 @@ func (c *c02Cell) observeStore(key, val string) {
 		}
 	}
 	c.storeObs[key] = append(c.storeObs[key], val)
+}
+
+// resave: the SAME session saved a second time through the proxy's own load / save entry points (what a refresh
+// without new tokens does): two encryptions of one plaintext, for the similarity check.
+func (c *c02Cell) resave(P *c02Inst, cr *c02Cred) {
+	req := httptest.NewRequest("GET", "http://proxy.test/", nil)
+	for _, ck := range cr.Parts {
+		req.AddCookie(&http.Cookie{Name: ck.Name, Value: ck.Value})
+	}
+	ss, err := P.P.P.LoadCookiedSession(req)
+	if err != nil || ss == nil {
+		c.run.T.Fatalf("C02 rig: LoadCookiedSession of unmodified %s: %v", cr.Label, err)
+	}
+	rw := httptest.NewRecorder()
+	if err := P.P.P.SaveSession(rw, req, ss); err != nil {
+		c.run.T.Fatalf("C02 rig: SaveSession of %s: %v", cr.Label, err)
+	}
+	parts := sessionCookiesOf(P, rw.Header().Values("Set-Cookie"))
+	if len(parts) == 0 {
+		c.run.T.Fatalf("C02 rig: re-saving %s set no session cookie", cr.Label)
+	}
+	c.seenMu.Lock()
+	for _, ck := range parts {
+		c.seenCookies[ck.Name+"="+ck.Value] = true
+	}
+	c.seenMu.Unlock()
+	c.notePayload("session", cr.Label+" (saved again)", c02Join(parts), cr.Who.Email)
+	c.run.Count("sessions_saved_twice_unchanged", 1)
+	if out := c02Probe(c.w, P, parts, false); !out.Accepted || out.Id != cr.Base {
+		c.run.Violation("c02:issued-cookie-decodes-to-another-session", fmt.Sprintf("[%s/%s] session %s saved again unchanged: the new cookie does not decode to it", c.g.Store, c.g.Form.Name, cr.Label),
+			c.detail(P, parts, map[string]interface{}{"observed": out.Id.short(), "status": out.Status, "expected": cr.Base.short()}))
+	}
+}
+
+// concurrentIssue: many users are issued credentials AT THE SAME TIME, then every issued cookie is presented
+// unmodified: it must decode to exactly the session of the user it was issued to (all six fields).
+//  (1) real logins of different users from 16 goroutines;
+//  (2) cookie store: thousands of saves of distinct sessions of similar size from 64 goroutines through the proxy's
+//      SaveSession entry point (the code path of every login / refresh, without the IdP round trips).
+func (c *c02Cell) concurrentIssue(P *c02Inst) {
+	run := c.run
+	type issued struct {
+		who   vfIdentity
+		want  c02Ident
+		parts []c02CK
+		err   string
+		via   string
+	}
+	nG, per := 16, run.Env.Pick(4, 10)
+	logins := make([]issued, nG*per)
+	for i := range logins {
+		logins[i].who = c02Identity(c.rng, fmt.Sprintf("c%d", i), c.rng.Intn(300))
+		logins[i].via = "concurrent real login"
+	}
+	vfParallel(len(logins), nG, func(i int) {
+		b := vfNewBrowser("")
+		if _, _, err := b.Login(P.P, logins[i].who, "/"); err != nil {
+			logins[i].err = err.Error()
+			return
+		}
+		for _, ck := range b.Jar.All() {
+			if P.isSessionCookie(ck.Name) {
+				logins[i].parts = append(logins[i].parts, c02CK{ck.Name, ck.Value})
+			}
+		}
+		sort.SliceStable(logins[i].parts, func(a, b int) bool { return logins[i].parts[a].Name < logins[i].parts[b].Name })
+	})
+	c.tokMu.Lock()
+	for i := range logins {
+		w, t := logins[i].who, c.tokBySub[logins[i].who.Sub]
+		logins[i].want = c02Ident{Email: w.Email, User: w.Sub, Groups: strings.Join(w.Groups, ","), PrefUser: w.PreferredUsername, AccessToken: t.Access, IDToken: t.ID}
+	}
+	c.tokMu.Unlock()
+	all := logins
+	if P.Store == "cookie" {
+		nW, perW := 64, run.Env.Pick(25, 100)
+		saves := make([]issued, nW*perW)
+		now := time.Now()
+		exp := now.Add(time.Hour)
+		for i := range saves {
+			tag := fmt.Sprintf("%05d", i)
+			saves[i].via = "concurrent SaveSession"
+			saves[i].want = c02Ident{Email: "syn" + tag + "." + c02RandStr(c.rng, 8, c02Alnum) + "@concurrent.example", User: "u-syn-" + tag + "-" + c02RandStr(c.rng, 12, c02Alnum),
+				Groups: "g-" + tag + "," + c02RandStr(c.rng, 24, c02Alnum), PrefUser: "pu-syn-" + tag + c02RandStr(c.rng, 6, c02Alnum),
+				AccessToken: "at-syn-" + tag + "-" + c02RandStr(c.rng, 24, c02Alnum), IDToken: "eyJzeW4i" + tag + c02RandStr(c.rng, 1500, c02Alnum)}
+		}
+		refresh := make([]string, len(saves))
+		for i := range refresh {
+			refresh[i] = "rt-syn-" + c02RandStr(c.rng, 24, c02Alnum)
+		}
+		vfParallel(len(saves), nW, func(i int) {
+			w := saves[i].want
+			created, expires := now, exp
+			ss := &sessionsapi.SessionState{CreatedAt: &created, ExpiresOn: &expires, AccessToken: w.AccessToken, IDToken: w.IDToken, RefreshToken: refresh[i],
+				Email: w.Email, User: w.User, Groups: strings.Split(w.Groups, ","), PreferredUsername: w.PrefUser}
+			rw := httptest.NewRecorder()
+			if err := P.P.P.SaveSession(rw, httptest.NewRequest("GET", "http://proxy.test/", nil), ss); err != nil {
+				saves[i].err = err.Error()
+				return
+			}
+			saves[i].parts = sessionCookiesOf(P, rw.Header().Values("Set-Cookie"))
+		})
+		all = append(all, saves...)
+	}
+	for i := range all {
+		if all[i].err != "" || len(all[i].parts) == 0 {
+			run.T.Fatalf("C02 rig: %s %d failed: %s (%d cookies)", all[i].via, i, all[i].err, len(all[i].parts))
+		}
+	}
+	vfParallel(len(all), 16, func(i int) {
+		it := &all[i]
+		out := c02Probe(c.w, P, it.parts, false)
+		run.Eval(fmt.Sprintf("%s|%s|concurrent-issue|%s", c.g.Store, c.g.Form.Name, it.via))
+		run.Count("concurrently_issued_credentials_checked", 1)
+		switch {
+		case !out.Accepted:
+			run.Violation("c02:issued-cookie-rejected-unmodified", fmt.Sprintf("[%s/%s] a cookie issued to %s (%s) is rejected when presented unmodified", c.g.Store, c.g.Form.Name, it.want.Email, it.via),
+				c.detail(P, it.parts, map[string]interface{}{"issued_to": it.want.short(), "status": out.Status, "how": it.via + ", many users at the same time"}))
+		case out.Id != it.want:
+			run.Violation("c02:issued-cookie-decodes-to-another-session", fmt.Sprintf("[%s/%s] the unmodified cookie issued to %s (%s) decodes to the session of %s", c.g.Store, c.g.Form.Name, it.want.Email, it.via, out.Id.Email),
+				c.detail(P, it.parts, map[string]interface{}{"issued_to": it.want.short(), "decodes_to": out.Id.short(), "how": it.via + ", many users at the same time"}))
+		}
+	})
+	// a few of them take part in the similarity check
+	for i := 0; i < len(all) && i < 24; i++ {
+		if P.Store == "cookie" {
+			k := i * (len(all) / 24)
+			c.notePayload("session", fmt.Sprintf("%s #%d", all[k].via, k), c02Join(all[k].parts), all[k].want.Email)
+		}
+	}
+	c.w.Up.Reset()
 }
 
 // c02History: the successive versions of ONE session as an observer of the store / of the browser traffic sees them.
@@ -1148,6 +1326,9 @@ func (c *c02Cell) saveHistory(R *c02Inst, n int) {
 			}
 		}
 		c.seenMu.Unlock()
+		if R.Store == "cookie" {
+			c.notePayload("session", label, c02Join(sessionCookiesOf(R, r.SetCookies())), who.Email)
+		}
 		if cr.RedisKey != "" {
 			v, err := c.w.Redis().Get(cr.RedisKey)
 			if err != nil || v == h.Versions[len(h.Versions)-1] {
@@ -1231,6 +1412,35 @@ func (c *c02Cell) opacity() {
 		}
 	}
 	run.Eval(fmt.Sprintf("%s|%s|opacity|iv-uniqueness", c.g.Store, c.g.Form.Name))
+
+	// --- known-answer check of the cookie cipher (with the secret) and ciphertext similarity (without)
+	key := c02AESKey(c.inst["issuer"].Secret)
+	type pl struct {
+		c02Payload
+		raw []byte
+	}
+	var pls []pl
+	for _, p := range c.payloads {
+		run.Count("cookie_cipher_known_answer_checks", 1)
+		run.Eval(fmt.Sprintf("%s|%s|opacity|cipher-known-answer-%s", c.g.Store, c.g.Form.Name, p.Kind))
+		if err := c02CheckCookieCipher(p.Kind, key, p.Full, p.MustContain); err != nil {
+			run.Violation("c02:cookie-cipher-is-not-aes-cfb", fmt.Sprintf("[%s/%s] %s cookie %q is not AES-CFB(IV, documented plaintext) under the cookie secret: %v", c.g.Store, c.g.Form.Name, p.Kind, p.Label, err),
+				map[string]interface{}{"flags": flags, "cookie_value": p.Full, "kind": p.Kind, "check": "independent decryption with Go crypto/cipher NewCFBDecrypter(AES(cookie secret), first 16 bytes)"})
+		}
+		if raw, err := c02PayloadOf(p.Full); err == nil && len(pls) < 96 {
+			pls = append(pls, pl{p, raw})
+		}
+	}
+	for i := range pls {
+		for j := i + 1; j < len(pls); j++ {
+			run.Count("cookie_payload_pairs_compared", 1)
+			if r, at := c02EqualRun(pls[i].raw, pls[j].raw, 16); r >= 24 {
+				run.Violation("c02:iv-or-nonce-reused", fmt.Sprintf("[%s/%s] cookies %q and %q (different IVs) agree in %d consecutive ciphertext bytes at offset %d: the key stream does not depend on the IV", c.g.Store, c.g.Form.Name,
+					pls[i].Label, pls[j].Label, r, at), map[string]interface{}{"flags": flags, "cookie_1": pls[i].Full, "cookie_2": pls[j].Full, "equal_run": r, "offset": at})
+			}
+		}
+	}
+	run.Eval(fmt.Sprintf("%s|%s|opacity|ciphertext-similarity", c.g.Store, c.g.Form.Name))
 
 	// --- store entries: every version ever observed under a key
 	for _, it := range items {
@@ -1316,6 +1526,8 @@ func TestVerif_C02(t *testing.T) {
 		"Configurations include --cookie-expire=0 (no lifetime: no expired bases, everything else identical) for both stores. " +
 		"cell = (store[, expire=0], secret form, credential kind, target instance, mutation class, position bucket); opacity: key-less recovery of every cookie and Redis value; " +
 		"uniqueness of every CFB IV under one cookie secret and of every GCM nonce among the versions of one store entry (one session re-saved 3x through the same cookie by real token refreshes per group); " +
+		"concurrent issuing (16 goroutines of real logins of different users, 64 goroutines x SaveSession of distinct sessions), every issued cookie presented unmodified must decode to its own user in all six fields, race-detector reports in session / encryption code are violations; " +
+		"known-answer check of the cookie cipher (independent AES-CFB decryption with the known secret must give the LZ4/msgpack plaintext); no two cookie payloads share >= 24 equal ciphertext bytes at equal offsets; " +
 		"two-time-pad recovery on consecutive versions; AES-GCM opening of every store entry with every 16/24/32-byte window of its own key name (raw, hex-decoded) and leading value bytes")
 	run.Assume("the fake IdP's books (who logged in, which tokens were issued) are the reference for 'the session that was issued'",
 		"lifetimes are hours, runs are minutes: no verdict depends on a time threshold", "cryptographic strength is not judged, only the presence of the mechanisms (a fixed IV or a weak key leave no recognisable plaintext)")
@@ -1323,6 +1535,9 @@ func TestVerif_C02(t *testing.T) {
 		t.Fatalf("C02 rig: %v", err)
 	}
 	if err := c02CryptoSelfTest(); err != nil {
+		t.Fatalf("C02 rig: %v", err)
+	}
+	if err := c02CipherSelfTest(); err != nil {
 		t.Fatalf("C02 rig: %v", err)
 	}
 	groups := c02Groups(run)
@@ -1335,6 +1550,7 @@ func TestVerif_C02(t *testing.T) {
 		run.Count("instance_groups", 1)
 		run.Count("issuing_configurations", int64(len(g.Sizes)))
 	}
+	run.RaceCheck("c02:data-race", "pkg/apis/sessions/", "pkg/encryption/", "pkg/sessions/", "pkg/cookies/")
 	c02AccMu.Lock()
 	run.Extra("accepted_as_exactly_the_issued_session", map[string]interface{}{"by_class_and_position": c02AccAll, "examples": c02AccEx})
 	c02AccMu.Unlock()
@@ -1345,7 +1561,8 @@ func TestVerif_C02(t *testing.T) {
 	}
 	if run.Violations() == 0 && (run.Counter("accepted_identical") == 0 || run.Counter("must_reject_variants") == 0 || run.Counter("opacity_values_store-value") == 0 ||
 		run.Counter("issued_without_lifetime_cookie") == 0 || run.Counter("issued_without_lifetime_redis") == 0 || run.Counter("store_version_pairs_xored") == 0 ||
-		run.Counter("ivs_observed_cookie_secret") < 20 || run.Counter("store_derived_keys_tried") == 0) {
+		run.Counter("ivs_observed_cookie_secret") < 20 || run.Counter("store_derived_keys_tried") == 0 || run.Counter("concurrently_issued_credentials_checked") < 1000 ||
+		run.Counter("cookie_cipher_known_answer_checks") < 20 || run.Counter("sessions_saved_twice_unchanged") == 0) {
 		fmt.Printf("INCONCLUSIVE property=C02 reason=a part of the oracle never fired (accepted-identical=%d, must-reject=%d, store values=%d, expire=0 groups cookie/redis=%d/%d, version pairs=%d, IVs=%d, store-derived keys=%d)\n",
 			run.Counter("accepted_identical"), run.Counter("must_reject_variants"), run.Counter("opacity_values_store-value"), run.Counter("issued_without_lifetime_cookie"), run.Counter("issued_without_lifetime_redis"),
 			run.Counter("store_version_pairs_xored"), run.Counter("ivs_observed_cookie_secret"), run.Counter("store_derived_keys_tried"))
